@@ -149,7 +149,7 @@ def origin(fn, x, binding=None, depth=0):
                     'e': origin(fn, init, binding, depth + 1)}
         if dk == 'param' and binding and x['d'] in binding:
             bfn, bx, bb = binding[x['d']]
-            return {'k': 'paramof', 'n': x['n'],
+            return {'k': 'paramof', 'n': x['n'], 'tcls': x.get('tcls'), 'd': x['d'],
                     'e': origin(bfn, bx, bb, depth + 1)}
         return x
     out = {}
